@@ -680,8 +680,9 @@ class CorruptSim(Simulator):
                        "known field re-sent under every non-fitting legal wire type (also one level down, inside message / wrapper / "
                        "map-entry payloads), wire types 6/7, field number 0, "
                        "proto2 groups colliding with known numbers, over-long varints, lengths past the end / 2^63, "
-                       "random strings and 1-3-flip sequences. Every mutated input is decoded through parse, every third one also through a "
-                       "rotating other entry point (FromString, load, load SIZE_DELIMITED).")
+                       "random strings and 1-3-flip sequences. Every run draws a primary entry point (parse, FromString, load, load "
+                       "SIZE_DELIMITED) through which every mutated input is decoded; every third input also goes through one of "
+                       "the other three in rotation. Each entry point is judged on its own.")
     nontrivial_rule = "the valid encoding decoded and at least one mutated input was decoded."
     sim_time_unit = "mutated decodes"
     components_real = ["betterproto Message.parse/FromString/load, load_fields, load_varint, _postprocess_single, __bytes__",
